@@ -116,6 +116,65 @@ Qed.
 Lemma hex8_one : hex8 1 = bs "00000001".
 Proof. vm_compute. reflexivity. Qed.
 
+(* ---------- the source's format strings (Gen/DigestKernels.v) mean what RFC 7616 writes ---------- *)
+
+Ltac fmt_solve :=
+  cbv [hash_input]; cbn; unfold sep3, sep2; rewrite ?app_nil_r; repeat (rewrite <- app_assoc; cbn [app]); reflexivity.
+
+Section Formats.
+  Variables user realm pass nonce cnonce qop method uri : bytes.
+  Let env0 := [(bs "c.username", FS user); (bs "c.realm", FS realm); (bs "c.password", FS pass);
+               (bs "c.nonce", FS nonce); (bs "c.cNonce", FS cnonce); (bs "c.nc", FN 1);
+               (bs "c.messageQop", FS qop); (bs "c.method", FS method); (bs "c.digestURI", FS uri)].
+
+  Lemma fmt_ha1 : hash_input (bs "ha1#0") env0 = sep3 user realm pass.
+  Proof. fmt_solve. Qed.
+  Lemma fmt_ha1_sess x : hash_input (bs "ha1#1") ((bs "ret", FS x) :: env0) = sep3 x nonce cnonce.
+  Proof. fmt_solve. Qed.
+  Lemma fmt_ha2 : hash_input (bs "ha2#0") env0 = sep2 method uri.
+  Proof. fmt_solve. Qed.
+  Lemma fmt_userhash : hash_input (bs "authorize#0") env0 = sep2 user realm.
+  Proof. fmt_solve. Qed.
+  Lemma fmt_resp_noqop a1 a2 :
+    hash_input (bs "resp#1") ((bs "ha1", FS a1) :: (bs "ha2", FS a2) :: env0) = sep3 a1 nonce a2.
+  Proof. fmt_solve. Qed.
+  Lemma fmt_resp_qop a1 a2 :
+    hash_input (bs "kd#0") [(bs "secret", FS a1);
+       (bs "data", FS (hash_input (bs "resp#2") ((bs "ha1", FS a1) :: (bs "ha2", FS a2) :: env0)))] =
+    sep2 a1 (nonce ++ colon_d :: hex8 1 ++ colon_d :: cnonce ++ colon_d :: qop ++ colon_d :: a2).
+  Proof. fmt_solve. Qed.
+End Formats.
+
+(* the lines `sl = append(sl, fmt.Sprintf(...))` of authorize(), in source order, write the
+   parameter names of build_fields with the same quoting, and the final Sprintf/Join the
+   "Digest " prefix and ", " separator of render_fields *)
+Lemma authorize_formats_as_modelled u r n uri resp a o os q qs nc cn :
+  map (fun f => Some (fst f, fval_kind (snd f)))
+      (build_fields true u r n uri resp (Some a) (o :: os) (q :: qs) nc cn) =
+  map (fun name => match assoc_bytes name sprintf_calls with Some c => call_field c | None => None end)
+      [bs "authorize#1"; bs "authorize#2"; bs "authorize#3"; bs "authorize#4"; bs "authorize#5";
+       bs "authorize#6"; bs "authorize#7"; bs "authorize#8"; bs "authorize#9"; bs "authorize#10";
+       bs "authorize#11"] /\
+  assoc_bytes (bs "authorize#12") sprintf_calls = Some (bs "Digest %s", [bs "strings.Join(sl, "", "")"]) /\
+  assoc_bytes (bs "authorize#10") sprintf_calls = Some (bs "nc=%08x", [bs "c.nc"]).
+Proof. repeat split; vm_compute; reflexivity. Qed.
+
+(* the literals the source tests against are the ones the model uses *)
+Lemma source_literals_as_modelled :
+  assoc_bytes (bs "newCredentials#0:HasSuffix") string_tests = Some (bs "-sess") /\
+  assoc_bytes (bs "parseChallenge#0:HasPrefix") string_tests = Some (bs "Digest ") /\
+  assoc_bytes (bs "parseChallenge#1:strings.ToUpper(unquoteParam(r[1]))!=") string_tests = Some (bs "UTF-8") /\
+  assoc_bytes (bs "authorize#0:c.userhash==") string_tests = Some (bs "true") /\
+  assoc_bytes (bs "authorize#1:c.algorithm!=") string_tests = Some [] /\
+  assoc_bytes (bs "authorize#2:c.opaque!=") string_tests = Some [] /\
+  assoc_bytes (bs "authorize#3:c.messageQop!=") string_tests = Some [] /\
+  assoc_bytes (bs "validateQop#0:c.messageQop==") string_tests = Some [] /\
+  assoc_bytes (bs "validateQop#1:Split") string_tests = Some [comma] /\
+  assoc_bytes (bs "validateQop#2:strings.TrimSpace(qop)==") string_tests = Some (bs "auth") /\
+  map snd (filter (fun e => has_prefix (bs "escapeQuoted#") (fst e)) string_tests) =
+    [[bslash]; [bslash; bslash]; [dquote]; [bslash; dquote]].
+Proof. repeat split; vm_compute; reflexivity. Qed.
+
 Section WithH.
   Variable H : hashfn -> bytes -> bytes.
 
@@ -141,6 +200,7 @@ Section WithH.
     eexists. split; [reflexivity|]. split; [apply build_fields_nodup|].
     intros k. rewrite build_fields_lookup.
     unfold fields_spec, rfc7616_field. rewrite R.
+    rewrite fmt_ha1, fmt_ha1_sess, fmt_ha2, fmt_userhash, fmt_resp_noqop, fmt_resp_qop.
     rewrite !(h_registered _ _ _ _ R).
     rewrite hex8_one. unfold sep3, sep2.
     destruct (c_qop c) as [|q qs], (c_algorithm c) as [|a al], (c_opaque c) as [|o os], sess,
